@@ -664,7 +664,7 @@ static int sys_cmd (char *line)
               fwrite (data, 1, size, f);
               fclose (f);
               set_mtime (path, (long) st.st_mtime);
-              vh_out ("corrupted %s %s at=%ld of=%ld", tok[1], tok[2], at, (long) st.st_size);
+              vh_out ("corrupted %s", tok[1]);
             }
           else if (f)
             fclose (f);
@@ -672,6 +672,62 @@ static int sys_cmd (char *line)
         }
       else
         vh_out ("corrupt-nofile %s", tok[1]);
+      return 1;
+    }
+  if ((!strcmp (tok[0], "foreign") || !strcmp (tok[0], "copybin")) && n == 3)
+    {
+      /* foreign <prog.c> magic|driver|config: the binary as another driver build / configuration would have written it
+         (header field changed, checksum correct, mtime kept);  copybin <from.c> <to.c>: a binary moved to another name */
+      char path[512], path2[512];
+      struct stat st;
+      int copy = tok[0][0] == 'c';
+      bin_path (path, sizeof path, tok[1]);
+      if (copy)
+        bin_path (path2, sizeof path2, tok[2]);
+      if (stat (path, &st) == 0 && st.st_size > 20)
+        {
+          long size = (long) st.st_size;
+          unsigned char *data = (unsigned char *) malloc (size);
+          FILE *f = fopen (path, "rb");
+          if (f && fread (data, 1, size, f) == (size_t) size)
+            {
+              uint32_t h = 2166136261u;
+              fclose (f);
+              if (!copy)
+                {
+                  if (!strcmp (tok[2], "magic"))
+                    data[0] ^= 1;
+                  else if (!strcmp (tok[2], "driver"))
+                    data[4] ^= 1;
+                  else
+                    data[8] ^= 1;
+                  for (long k = 0; k < size - 4; k++)
+                    {
+                      h ^= data[k];
+                      h *= 16777619u;
+                    }
+                  memcpy (data + size - 4, &h, 4);
+                }
+              mkdirs_for (copy ? path2 : path);
+              f = fopen (copy ? path2 : path, "wb");
+              fwrite (data, 1, size, f);
+              fclose (f);
+              set_mtime (copy ? path2 : path, (long) st.st_mtime);
+              vh_out ("%s %s %s", tok[0], tok[1], tok[2]);
+            }
+          else if (f)
+            fclose (f);
+          free (data);
+        }
+      else
+        vh_out ("%s-nofile %s", tok[0], tok[1]);
+      return 1;
+    }
+  if (!strcmp (tok[0], "badload") && n == 2)
+    {
+      /* load something that does not compile (the master reports the error), then go on in the same process */
+      object_t *ob = safe_load (tok[1]);
+      vh_out ("badload %s %s", tok[1], ob ? "loaded" : "failed");
       return 1;
     }
   if (!strcmp (tok[0], "calls"))
